@@ -268,6 +268,23 @@ def check(ctx):
                     kinds = [k for k, _ in s.yields]
                     run.check(kinds == ['identity'] and not s.drains, 'R6c', where(ctx.repo, rl.node), rl.fi.qualname,
                               stream.fmt_atoms(s.atoms), 'unselected resource does not pass through unchanged: ' + s.describe())
+    # a step that builds a matcher and does more to a resource stream than hand it on must ask the matcher in the stream phase
+    # too: deciding by some other recorded state (what the package phase stored for a name, a cache from an earlier run) selects
+    # differently from the selector as soon as that state and the selector disagree
+    for f in [x for x in funcs if x.name != 'process_datapackage'] + cls_steps:
+        seeds = ['package'] if f.name != 'process_resources' else [f.params[1]]
+        for rl in find_resloops(ctx.repo, ctx.res, f, seeds):
+            if rl.kind != 'for' or rl.fi is not f:     # a loop reached through super() belongs to the rows-level clause
+                continue
+            sigs, at = resloop_signature(ctx.repo, ctx.res, rl)
+            if any(a[0] in ('MATCH', 'EQ', 'IN') for s in sigs for a in s.atoms):
+                run.ok('R6c', where(ctx.repo, rl.node), rl.fi.qualname + ' stream phase asks the matcher')
+                continue
+            plain = all([k for k, _ in s.yields] == ['identity'] and not s.drains and not s.defers for s in sigs if s.term != 'raise')
+            run.check(plain, 'R6c', where(ctx.repo, rl.node), rl.fi.qualname, 'stream phase asks the matcher',
+                      'the step builds a ResourceMatcher but its resource loop wraps / drops / replaces resources without asking it: '
+                      'which resources are touched is decided by something other than the selector')
+            n6 += 1
     from sa.model import rows_steps
     for f in rows_steps(ctx.repo):
         if any(ctx.res.instantiates(n, 'ResourceMatcher') for n in ast.walk(f.node) if isinstance(n, ast.Call)):
